@@ -35,6 +35,11 @@ def generate_all():
         write_if_changed(os.path.join(COQ, 'Gen/Validators.v'), validators.emit_coq(validators.translate(REPO)))
     except Exception as ex:
         errs.append('validators: %s' % ex)
+    try:
+        import vfs_src                      # props/vfs_src.py -> Gen/VfsTable.v (C07, C14, C19)
+        vfs_src.generate(REPO, COQ, write_if_changed)
+    except Exception as ex:
+        errs.append('vfs_src: %s' % ex)
     return errs
 
 if __name__ == '__main__':
